@@ -466,8 +466,17 @@ func (m *machine) runRound(hist *[]string) {
 	}
 	spawnUploader := func(i int) {
 		p := s.NewProc(fmt.Sprintf("uploader-r%d-%d", m.round, i), nil)
+		st := explicitStart
+		if t.Bool(1, 5) {
+			// the caller hands over the same instant in its local zone
+			if st.IsZero() {
+				st = m.roundStart
+			}
+			st = st.In([]*time.Location{time.FixedZone("UTC-8", -8*3600), time.FixedZone("UTC+14", 14*3600), time.FixedZone("UTC-11:30", -(11*3600 + 1800))}[t.Draw(3)])
+			s.Probe("start-time-in-local-zone")
+		}
 		tk := s.Spawn(p, p.Name, func() {
-			upload.Run(upload.RunConfig{TelemetryDir: m.tele, UploadURL: uploadURL, StartTime: explicitStart})
+			upload.Run(upload.RunConfig{TelemetryDir: m.tele, UploadURL: uploadURL, StartTime: st})
 		})
 		m.uploaderOf[tk] = m.round
 		tasks = append(tasks, tk)
